@@ -31,6 +31,10 @@ theorem coerceInt_branches_spec :
     WITHOUT their own `parse_literal` are restricted to scalar literals. -/
 theorem scalarLiteralGuard_spec : customOwnParseLiteralTakesAnyLiteral = true := by decide
 
+/-- The stand-in scalar's `parse` (`_transparent`), as observed on the live `default_scalar` on every run: it refuses non-finite
+    floats at the top level and nested in lists / dicts, and nothing finite. -/
+theorem defaultScalarParse_spec : defaultScalarParseRejectsNonFinite = true := by decide
+
 theorem floatChecked_ok {c : FCls} {r pv : PV} (h : floatChecked c r = .ok pv) : pv = r ∧ c = .finite := by
   unfold floatChecked at h
   split at h
